@@ -6,6 +6,8 @@ real code: every feature's get(i) against column i of get(None); the real Hedger
 step-by-step branch forced (zero-weighted prev_hedge input) - hedge, portfolio, P&L and two criteria; and the trace
 of model inputs recorded by the model double is validated against the machine's `rows`/`outs`.
 """
+import torch
+
 from lib.core import Ctx, run_check
 from checks import hedge_common
 
@@ -53,9 +55,56 @@ def inplace_first_operation(ctx: Ctx) -> None:
             ctx.violation("hedger:inplace-model:buffer", f"the all-steps evaluation handed the model the simulated {feature} buffer itself: it was overwritten", {"feature": feature})
 
 
+def shared_module_output(ctx: Ctx) -> None:
+    """One ModuleOutput feature object that reads prev_hedge, used by TWO hedgers on the same derivative (in both orders, and
+    again after a new simulation): the prev_hedge its module sees at step i is the output at step i-1 of the hedger that is
+    being evaluated - zero at step 0 - not something of the other hedger."""
+    from pfhedge.features import ModuleOutput
+    from pfhedge.instruments import BrownianStock, EuropeanOption
+    from pfhedge.nn import Hedger
+    dtype = torch.float64
+
+    class Recording(torch.nn.Module):
+        def __init__(self):
+            super().__init__()
+            self.lin = torch.nn.Linear(2, 1, dtype=dtype)
+            self.seen = []
+
+        def forward(self, x):
+            self.seen.append(x.detach().clone())
+            return torch.tanh(self.lin(x))
+
+    torch.manual_seed(ctx.seed + 3)
+    ext = Recording()
+    mo = ModuleOutput(ext, ["moneyness", "prev_hedge"])
+    models = [torch.nn.Sequential(torch.nn.Linear(1, 1, dtype=dtype), torch.nn.Tanh()), torch.nn.Sequential(torch.nn.Linear(1, 1, dtype=dtype), torch.nn.Sigmoid())]
+    hedgers = [Hedger(m, [mo]) for m in models]
+    d = EuropeanOption(BrownianStock(dt=0.25, dtype=dtype), maturity=1.0)
+    for rnd, order in enumerate(((0, 1), (1, 0), (1, 1, 0))):
+        torch.manual_seed(ctx.seed + rnd)
+        d.simulate(n_paths=3)
+        for which in order:
+            ext.seen.clear()
+            with torch.no_grad():
+                out = hedgers[which].compute_hedge(d)            # (N, 1, T)
+            ctx.count(n=len(ext.seen))
+            steps = [x for x in ext.seen if x.dim() == 3 and x.size(1) == 1]
+            if len(steps) < out.size(-1) - 1:
+                ctx.violation("prev:shared-module-output:trace", "a ModuleOutput reading prev_hedge was not evaluated step by step", {"calls": [list(x.shape) for x in ext.seen]})
+                return
+            for i, x in enumerate(steps[: out.size(-1) - 1]):
+                want = torch.zeros_like(out[:, :, 0]) if i == 0 else out[:, :, i - 1]
+                if not torch.equal(x[:, 0, 1:], want):
+                    ctx.violation("prev:shared-module-output", f"hedger #{which} evaluated after the other hedger on the same derivative (shared ModuleOutput reading prev_hedge): at step {i} "
+                                  "the module saw a prev_hedge that is not this hedger's output at the previous step",
+                                  {"round": rnd, "order": list(order), "step": i, "seen": x[:, 0, 1:].flatten().tolist(), "expected": want.flatten().tolist()})
+                    return
+
+
 def check(ctx: Ctx) -> None:
     hedge_common.replay_hedger(ctx, focus="C03")
     inplace_first_operation(ctx)
+    shared_module_output(ctx)
     hedge_common.c03_selftest(ctx)
     ctx.rule = ("every (path, configuration) state of Hedge.tla's bounded model; replayed per configuration with all "
                 "paths stacked as one batch; distinct = distinct emitted (path, configuration) record")
